@@ -14,10 +14,10 @@ CHECKS = {
         "technique": "TLC model checking of RouterSys.tla and Alias.tla + TLC trace validation (state projection per step, invariants on every trace state) of the real router stepped through TLC-generated and seeded schedules",
     },
     "C03": {
-        "bins": ["router_run"], "bins_small": ["router_run"],
+        "bins": ["router_run", "linklock"], "bins_small": ["router_run"],
         "category": "model_checking",
-        "text": "Router.tla models every unwrap/expect/index/assert of the routing core that an input can reach as an explicit `panicked` flag. TLC explores exhaustively all interleavings of connects (incl. client-id takeover and slab-key reuse), subscribes, publishes, arbitrary acknowledgements from an adversary, link closes and raw Ready/Disconnect/DeviceData events for live, removed and never-registered ids, and checks NoPanic, SlabsAligned, ReadyqSound. TLC-generated schedules with three adversaries, persistent and clean sessions and stale events are executed on the real router (debug assertions on) and validated step by step; a panic of the real router is a violation whatever the model says. Beyond the model, seeded schedules with shared subscriptions, Unicode/odd topics and filters, invalid client ids, wills, Shadow requests and unsolicited acks run on the real router and must end with a fresh client pair still being served (liveness probe).",
-        "design_ref": "DESIGN.md section 6 / C03",
+        "text": "Router.tla models every unwrap/expect/index/assert of the routing core that an input can reach as an explicit `panicked` flag. TLC explores exhaustively all interleavings of connects (incl. client-id takeover and slab-key reuse), subscribes, publishes, arbitrary acknowledgements from an adversary, link closes and raw Ready/Disconnect/DeviceData events for live, removed and never-registered ids, and checks NoPanic, SlabsAligned, ReadyqSound. TLC-generated schedules with three adversaries, persistent and clean sessions and stale events are executed on the real router (debug assertions on) and validated step by step; a panic of the real router is a violation whatever the model says. Beyond the model, seeded schedules with shared subscriptions, Unicode/odd topics and filters, invalid client ids, wills, Shadow requests and unsolicited acks run on the real router and must end with a fresh client pair still being served (liveness probe). The lock / bounded-channel protocol between a local link's blocking push and the router thread is LinkLock.tla: TLC shows it deadlock-free (and that holding the buffer lock across the send deadlocks); the deadlock schedule is executed on the real code with real threads and must complete.",
+        "design_ref": "DESIGN.md section 6 / C03 and A.11",
         "note": "Trusted: Router.tla/RouterSys.tla as transcription of rumqttd/src/router (bound step by step by trace validation of the real router with a full state projection), TLC, the verif hooks that step the router single-threaded, the scripted clients of the harness. Exhaustive only for the small configurations; production constants sampled by validated traces. Topic aliases are modelled separately (Alias.tla: one publisher, one subscriber, QoS 0) with the scheduling abstracted to one batch per filter and turn; subscription ids, message expiry, segment eviction are not modelled here.",
         "technique": "TLC model checking of RouterSys.tla and Alias.tla + TLC trace validation (state projection per step, invariants on every trace state) of the real router stepped through TLC-generated and seeded schedules",
     },
